@@ -302,20 +302,34 @@ func (f *frame) applyContract(n *node, c *Contract, callee *ssa.Function, args [
 	x := f.x
 	pre := n.heap.clone()
 	for _, r := range c.Requires {
-		t := x.evalClause(f, r, n.heap, pre, args, nil, nil)
+		t := x.evalClauseAt(n.reach, f, r, n.heap, pre, args, nil, nil)
 		if !x.tolerant {
 			x.oblige("pre", fmt.Sprintf("%s.requires%d", c.FuncID, r.N), mergeProps(r.Props, x.safeProps), and(n.reach, not(t)), f.fn, pos)
 		}
 		n.reach = x.g.Fresh(SortBool, and(n.reach, t))
 	}
-	// the state behind interface-typed arguments may change: observers are re-evaluated
+	// the state behind interface-typed arguments may change: observers are re-evaluated.
+	// A callee that may write through a pointer it receives may also reach interface values
+	// stored behind it: then every version moves on.
+	var ifaceArgs []Val
+	ptrArg := false
 	for _, a := range args {
-		if a.T != nil {
-			if _, ok := a.T.Underlying().(*types.Interface); ok {
-				f.bumpIfaceVersion(n)
-				break
-			}
+		if a.T == nil {
+			continue
 		}
+		switch a.T.Underlying().(type) {
+		case *types.Interface:
+			if len(a.C) == 2 {
+				ifaceArgs = append(ifaceArgs, a)
+			}
+		case *types.Pointer, *types.Slice, *types.Map:
+			ptrArg = true
+		}
+	}
+	if ptrArg && (len(c.Modifies) > 0 || !c.ModSet) {
+		f.bumpIfaceVersion(n)
+	} else if len(ifaceArgs) > 0 {
+		f.bumpIfaceVersion(n, ifaceArgs...)
 	}
 	// frame: havoc what the callee may modify
 	if c.ModAll {
@@ -324,7 +338,10 @@ func (f *frame) applyContract(n *node, c *Contract, callee *ssa.Function, args [
 		n.heap = nh
 	}
 	if len(c.Modifies) > 0 {
+		savedReach := x.specReach
+		x.specReach = n.reach
 		locs := x.evalModifies(f, c, n.heap, args)
+		x.specReach = savedReach
 		for _, l := range locs {
 			f.havocLoc(n, l)
 		}
@@ -350,7 +367,7 @@ func (f *frame) applyContract(n *node, c *Contract, callee *ssa.Function, args [
 		if x.ctr != nil && x.ctr.LightCalls && strings.HasPrefix(e.Text, "forall ") {
 			continue // proof hint `light calls`: assuming less is always sound
 		}
-		t := x.evalClause(f, e, n.heap, pre, args, results, nil)
+		t := x.evalClauseAt(n.reach, f, e, n.heap, pre, args, results, nil)
 		x.g.Assume(implies(n.reach, t))
 	}
 	x.note("call of %s uses its contract (%s:%d)", c.FuncID, c.File, c.Line)
@@ -441,10 +458,22 @@ func (x *Exec) evalModifies(f *frame, c *Contract, heap *Heap, args []Val) []mod
 	for i, p := range fn.Params {
 		sub.paramVals[p] = args[i]
 	}
-	sub.run("true", heap.clone())
+	reach := x.specReach
+	if reach == "" {
+		reach = "true"
+	}
+	sub.run(reach, heap.clone())
 	x.specDepth--
 	x.modCollect = saved
 	return locs
+}
+
+// evalClauseAt evaluates a clause in the state of a program point reached under `reach`.
+func (x *Exec) evalClauseAt(reach string, f *frame, cl *Clause, heap, old *Heap, args []Val, results []Val, binders map[string]Val) string {
+	saved := x.specReach
+	x.specReach = reach
+	defer func() { x.specReach = saved }()
+	return x.evalClause(f, cl, heap, old, args, results, binders)
 }
 
 // evalClause evaluates a clause function and returns its Bool term.
@@ -480,7 +509,14 @@ func (x *Exec) evalClause(f *frame, cl *Clause, heap, old *Heap, args []Val, res
 	x.oldHeaps = append(x.oldHeaps, old)
 	x.specDepth++
 	x.stack = append(x.stack, fn)
-	sub.run("true", heap.clone())
+	// The clause is evaluated in the state of one program point: whatever is assumed while
+	// evaluating it (well-formedness of the values it loads, contracts of the observers it
+	// calls) is a fact about that point only and is guarded by the point's reach.
+	reach := x.specReach
+	if reach == "" {
+		reach = "true"
+	}
+	sub.run(reach, heap.clone())
 	x.stack = x.stack[:len(x.stack)-1]
 	x.specDepth--
 	x.oldHeaps = x.oldHeaps[:len(x.oldHeaps)-1]
@@ -645,6 +681,16 @@ func (f *frame) intrinsic(n *node, callee *ssa.Function, args []Val) (Val, bool)
 			b = b.Bind[0]
 		}
 		return Val{T: types.Typ[types.Bool], C: []string{g.Fresh(SortBool, eq(a.C[0], b.C[0]))}}, true
+	case name == "vcSameObject":
+		// vcSameObject(a, b): the interface values a and b hold (a pointer to) the same object
+		a, b := args[0], args[1]
+		if len(a.Bind) == 1 {
+			a = a.Bind[0]
+		}
+		if len(b.Bind) == 1 {
+			b = b.Bind[0]
+		}
+		return Val{T: types.Typ[types.Bool], C: []string{g.Fresh(SortBool, eq(a.C[len(a.C)-1], b.C[len(b.C)-1]))}}, true
 	case name == "vcIsNil":
 		a := args[0]
 		return Val{T: types.Typ[types.Bool], C: []string{g.Fresh(SortBool, eq(a.C[0], bvLit(0, 32)))}}, true
@@ -720,18 +766,30 @@ func (f *frame) invokeIface(n *node, recv Val, m *types.Func, args []Val, in *ss
 			pre := n.heap.clone()
 			all := append([]Val{recv}, args...)
 			for _, e := range c.Ensures {
-				t := x.evalClause(f, e, n.heap, pre, all, results, nil)
+				t := x.evalClauseAt(n.reach, f, e, n.heap, pre, all, results, nil)
 				x.g.Assume(implies(n.reach, t))
 			}
 		}
 		return res
 	}
-	f.bumpIfaceVersion(n)
+	// the call may change the object behind the receiver and those behind interface-typed
+	// arguments; other objects are assumed independent of them (trusted: no hidden aliasing
+	// between, say, a Reader and the Writer it is copied into)
+	bumped := []Val{recv}
+	for _, a := range args {
+		if a.T != nil {
+			if _, ok := a.T.Underlying().(*types.Interface); ok && len(a.C) == 2 {
+				bumped = append(bumped, a)
+			}
+		}
+	}
+	f.bumpIfaceVersion(n, bumped...)
+	x.note("trusted: a call on one interface value does not change the state observed through another interface value that is not passed to it")
 	if c := x.w.Iface[it+"."+m.Name()]; c != nil && !f.spec && !x.inSpec() {
 		pre := n.heap.clone()
 		all := append([]Val{recv}, args...)
 		for _, r := range c.Requires {
-			t := x.evalClause(f, r, n.heap, pre, all, nil, nil)
+			t := x.evalClauseAt(n.reach, f, r, n.heap, pre, all, nil, nil)
 			x.oblige("pre", fmt.Sprintf("%s.requires%d", c.FuncID, r.N), mergeProps(r.Props, x.safeProps), and(n.reach, not(t)), f.fn, in.Pos())
 			n.reach = x.g.Fresh(SortBool, and(n.reach, t))
 		}
@@ -748,7 +806,7 @@ func (f *frame) invokeIface(n *node, recv Val, m *types.Func, args []Val, in *ss
 			// opaque to the caller, the caller's own heap is untouched
 		}
 		for _, e := range c.Ensures {
-			t := x.evalClause(f, e, n.heap, pre, all, results, nil)
+			t := x.evalClauseAt(n.reach, f, e, n.heap, pre, all, results, nil)
 			x.g.Assume(implies(n.reach, t))
 		}
 		x.note("interface call %s.%s uses the interface contract", it, m.Name())
@@ -1092,7 +1150,7 @@ func (f *frame) atCallAssertionsNamed(n *node, in *ssa.Call, id, full string, ar
 		x.oldHeaps = append(x.oldHeaps, f.entryHeap)
 		x.specDepth++
 		x.stack = append(x.stack, fn)
-		sub.run("true", n.heap.clone())
+		sub.run(n.reach, n.heap.clone())
 		x.stack = x.stack[:len(x.stack)-1]
 		x.specDepth--
 		x.oldHeaps = x.oldHeaps[:len(x.oldHeaps)-1]
@@ -1165,17 +1223,28 @@ func (f *frame) ifaceVersion(n *node, recv Val) string {
 		h = f.heapFor(n, recv)
 	}
 	arr := x.hget(h, ifaceVerKey, SortBV64, "")
-	return x.g.Fresh(SortBV64, "(select "+arr+" "+NilRef+")")
+	return x.g.Fresh(SortBV64, "(select "+arr+" "+recv.C[1]+")")
 }
 
-func (f *frame) bumpIfaceVersion(n *node) {
+// bumpIfaceVersion moves on the versions of the given interface values (the objects a call
+// may change: its receiver and the interface values it is handed). With no value given,
+// every version moves on.
+func (f *frame) bumpIfaceVersion(n *node, vals ...Val) {
 	x := f.x
 	if f.spec || x.inSpec() {
 		return
 	}
-	arr := x.hget(n.heap, ifaceVerKey, SortBV64, "")
-	v := x.g.Const("ifacever", SortBV64)
-	x.hset(n.heap, ifaceVerKey, SortBV64, "", x.g.Fresh(heapArraySort(SortBV64, ""), "(store "+arr+" "+NilRef+" "+v+")"), NilRef)
+	if len(vals) == 0 {
+		x.hset(n.heap, ifaceVerKey, SortBV64, "", x.g.Const("ifacever.all", heapArraySort(SortBV64, "")), NilRef)
+	}
+	for _, r := range vals {
+		if len(r.C) < 2 {
+			continue
+		}
+		arr := x.hget(n.heap, ifaceVerKey, SortBV64, "")
+		v := x.g.Const("ifacever", SortBV64)
+		x.hset(n.heap, ifaceVerKey, SortBV64, "", x.g.Fresh(heapArraySort(SortBV64, ""), "(store "+arr+" "+r.C[1]+" "+v+")"), r.C[1])
+	}
 	for _, ep := range f.activeEpochs(n) {
 		ep.written[ifaceVerKey] = true
 	}
